@@ -389,13 +389,15 @@ class RecipeReplay:
                             du = "U" if model.is_enzyme(s) else pp.config.moles_display_unit
                             p = prec.get(du, prec["default"])
                         tol = 0.5 * 10 ** (-p) * 1.0001 + 1e-6 * abs(e)
-                        if e < -tol:
+                        # the sign of the specified amount is exact (a rational): any net decrease must be refused, however
+                        # small it looks at the display precision of the requested unit; only exactly zero is don't-care
+                        if x < 0:
                             if exc is None:
                                 self.report("C09", "net_decrease_reported", k9, f"get_substance_used({s}, {tf!r}, {unit[0]!r}, {dlabel}) = {got!r}; the destinations lost {-e!r}", ev)
                             elif not isinstance(exc, ValueError):
                                 self.report("C09", "net_decrease_not_ValueError", dict(k9, exc=type(exc).__name__), f"get_substance_used({s}, {tf!r}, ..) raised {type(exc).__name__}: {exc}", ev)
                         elif exc is not None:
-                            if e > tol:
+                            if x > 0:
                                 self.report("C09", "query_raises", dict(k9, exc=type(exc).__name__), f"get_substance_used({s}, {tf!r}, {unit[0]!r}, {dlabel}) raised {type(exc).__name__}: {exc}; specified {e!r}", ev)
                         elif abs(got - e) > tol:
                             self.report("C09", "wrong_amount", k9, f"get_substance_used({s}, {tf!r}, {unit[0]!r}, {dlabel}) = {got!r}, specified {e!r}", ev)
@@ -457,7 +459,7 @@ class RecipeReplay:
     def used_units(self, s):
         if model.is_enzyme(s):
             return [(None, "default"), ("U", "U"), ("mg", "g")]
-        return [(None, "default"), ("umol", "mol"), ("mmol", "mol"), ("mg", "g"), ("uL", "L")]
+        return [(None, "default"), ("umol", "mol"), ("mmol", "mol"), ("mg", "g"), ("uL", "L"), ("L", "L"), ("kmol", "mol")]
 
     def used_scale(self, s, unit):
         """real value in `unit` per model amount unit of s."""
